@@ -55,6 +55,8 @@ def gen_plan(rng, prof):
         for ti, tk in enumerate(tokens):
             if rng.random() < prof.p_token and (not jt or rng.random() < prof.two_tokens):
                 jt.append({"tok": ti, "n": rng.randint(1, tk["total"])})
+                if rng.random() < getattr(prof, "p_listener", 0.25):
+                    jt[-1]["via"] = "listener"  # attached by the launcher's submit listener, not by add_dependencies
         codes = [0]
         if rng.random() < prof.p_fail:
             codes = [rng.choice([1, 3, 255])]
@@ -168,6 +170,8 @@ def plan_features(plan):
             f.add("how:" + d["how"])
         if j["tokens"]:
             f.add(f"tokens:{len(j['tokens'])}")
+        if any(t.get("via") == "listener" for t in j["tokens"]):
+            f.add("token-via-listener")
         if j["codes"][0] != 0:
             f.add("fail")
         if len(j["codes"]) > 1:
